@@ -406,7 +406,7 @@ def oracleC04 (op : String) (a : Nat → Option Str) (impl : String) : String ×
           if !(t.wf false && t.render == p) then ("fail:oracle-parser-self-check", "")
           else
             let ex := t.expand
-            if ex.length > 4096 then ("na", "too-many-expansions")
+            if ex.length > 20000 then ("na", "too-many-expansions")
             else
               -- `pattern.alt` is alternate_match alone: no quick test on the unexpanded pattern
               let exp := b (ex.any (S.expansionMatches · n))
